@@ -306,8 +306,8 @@ impl Type<Unresolved> {
 impl LiteralValue {
     pub fn try_from_asn_str(asn: &str) -> Option<LiteralValue> {
         Some(match asn {
-            bool if bool.eq_ignore_ascii_case("true") => LiteralValue::Boolean(true),
-            bool if bool.eq_ignore_ascii_case("false") => LiteralValue::Boolean(false),
+            "TRUE" => LiteralValue::Boolean(true),
+            "FALSE" => LiteralValue::Boolean(false),
             slice if slice.starts_with('"') && slice.ends_with('"') => {
                 LiteralValue::String(slice[1..slice.len() - 1].to_owned())
             }
